@@ -183,6 +183,29 @@ func (e *Explorer) Subtree(prefix []int) {
 	}
 }
 
+// Budgeted explores the subtrees rooted at the given prefixes depth-first with an explicit stack and stops
+// after about maxExecs executions; it returns the prefixes of the subtrees that are still unexplored (the
+// coordinator hands them out again: dynamic load balancing across worker processes).
+func (e *Explorer) Budgeted(prefixes [][]int, maxExecs int64) (rest [][]int) {
+	stack := append([][]int{}, prefixes...)
+	start := e.Stats.Executions
+	for len(stack) > 0 && e.Err == "" {
+		if e.Stats.Executions-start >= maxExecs || e.capped() {
+			break
+		}
+		p := stack[len(stack)-1]
+		stack = stack[:len(stack)-1]
+		ch := e.one(p)
+		for i := len(ch) - 1; i >= 0; i-- { // children in order: the earliest branch point is explored first
+			stack = append(stack, ch[i])
+		}
+	}
+	if e.cache != nil {
+		e.Stats.States = int64(len(e.cache))
+	}
+	return stack
+}
+
 // Expand explores breadth-first from the root until at least `want` unexplored subtrees are pending (or
 // the tree is exhausted) and returns their prefixes. The executions run during expansion are checked.
 func (e *Explorer) Expand(want int) [][]int {
